@@ -380,3 +380,84 @@ pub fn pool_config(players: std::ops::RangeInclusive<usize>, pool: std::ops::Ran
 pub fn free_config(players: std::ops::RangeInclusive<usize>, min: usize, max: usize) -> impl Strategy<Value = Config> {
     (flop_strategy(), proptest::collection::vec(range_from(all_combos(), min, max), players)).prop_map(|(flop, ranges)| Config { flop, ranges, scope: None })
 }
+
+// ---------------------------------------------------------------------------------------------
+// light fingerprints (no allocation) for sequence comparisons (C04, C15)
+
+impl Translator {
+    /// (turn position, river position, fingerprint of everything observable in the showdown)
+    #[inline]
+    pub fn light(&self, s: &Showdown) -> (u8, u8, u64) {
+        let b = s.board();
+        let mut h: u64 = 0x9e37_79b9_7f4a_7c15;
+        let mut put = |x: u64| {
+            h = (h ^ x).wrapping_mul(0x100_0000_01b3).rotate_left(23);
+        };
+        for c in b.iter() {
+            put(cid_of(c) as u64);
+        }
+        let t = self.pos_of(cid_of(&b[3]));
+        let r = self.pos_of(cid_of(&b[4]));
+        for p in s.players().iter() {
+            let hc = p.hole_cards();
+            put(cid_of(&hc[0]) as u64);
+            put(cid_of(&hc[1]) as u64);
+            put(p.hand().power_index() as u64);
+            put(p.is_winner() as u64);
+        }
+        put(s.winner_len() as u64);
+        put(s.probability().to_bits() as u64);
+        (t, r, mix64(h))
+    }
+    #[inline]
+    pub fn pos_of(&self, c: Cid) -> u8 {
+        self.pos[c as usize]
+    }
+}
+
+/// index of position (t,r) in the lexicographic list of the 1176 positions; (48,49) -> 1176
+#[inline]
+pub fn pos_index(t: u8, r: u8) -> u16 {
+    if t >= 48 {
+        return 1176;
+    }
+    let t = t as u32;
+    // positions before row t: sum_{k<t} (48-k) = 48t - t(t-1)/2
+    (48 * t - t * (t.wrapping_sub(1)) / 2 + (r as u32 - t - 1)) as u16
+}
+pub fn index_pos(i: u16) -> (u8, u8) {
+    let mut i = i as u32;
+    for t in 0..48u32 {
+        let row = 48 - t;
+        if i < row {
+            return (t as u8, (t + 1 + i) as u8);
+        }
+        i -= row;
+    }
+    (48, 49)
+}
+
+/// One drained run as (position index, fingerprint) pairs.
+pub type Seq = Vec<(u16, u64)>;
+
+pub fn run_seq(cfg: &Config, limit: usize, extra_next: usize) -> Result<Seq, Fail> {
+    let tr = Translator::new(cfg);
+    let mut out = Vec::new();
+    let mut it = cfg.evaluator().into_iter();
+    while let Some(s) = it.next() {
+        let (t, r, fp) = tr.light(&s);
+        if t == 255 || r == 255 || t >= r {
+            return Err(Fail::new("turn-river-order", format!("showdown board {:?}: turn/river deck positions are ({}, {}), expected turn < river among the unseen cards", s.board(), t, r)));
+        }
+        if out.len() >= limit {
+            return Err(Fail::new("over-production", format!("evaluator (scope {:?}) yielded more than {} showdowns, more than the window holds", cfg.scope, limit)));
+        }
+        out.push((pos_index(t, r), fp));
+    }
+    for k in 0..extra_next {
+        if it.next().is_some() {
+            return Err(Fail::new("not-exhausted", format!("evaluator (scope {:?}) returned a showdown on call {} after it had returned None", cfg.scope, k + 1)));
+        }
+    }
+    Ok(out)
+}
